@@ -34,6 +34,10 @@ def allClose (tol : Float) (a b : List Float) : Bool :=
 
 def tol : Float := 1e-9
 
+/-- a float as `nan`, `+inf`, `-inf` or its bit pattern (for answers where the NaN sign / payload is not part of the claim) -/
+def fClass (x : Float) : String :=
+  if x != x then "nan" else if x == 1.0 / 0.0 then "+inf" else if x == -(1.0 / 0.0) then "-inf" else fHex x
+
 /-- one request → one answer line; `none` = not a C17 op / malformed -/
 def handle (op : String) (args : List String) : Option String := do
   let fs ← floats? args
@@ -65,10 +69,10 @@ def handle (op : String) (args : List String) : Option String := do
       let b ← bbOf (fs.take 6); let c ← bbOf (fs.drop 6); pure (fsHex (bbTo (b.EncapsulateBounds c)))
   | "c17.aabb.closest" => do
       let b ← bbOf (fs.take 6); let p ← v3Of (fs.drop 6); pure (fsHex (v3To (b.ClosestPoint p)))
-  | "c17.aabb.frompoints" => do       -- args: points (3n, n ≥ 1)
-      match v3List fs with
-      | p :: ps => pure (fsHex (bbTo (PolyVerif.C17.fromPoints p ps)))
-      | [] => none
+  | "c17.aabb.frompoints" =>          -- args: points (3n, n ≥ 0): the REGENERATED NewAABBFromPoints at Float (IEEE ±Inf)
+      pure (fsHex (bbTo (geometry.NewAABBFromPoints (v3List fs))))
+  | "c17.aabb.frompoints_class" =>    -- same, every component printed as nan | +inf | -inf | hex (NaN payload / sign not compared)
+      pure (" ".intercalate ((bbTo (geometry.NewAABBFromPoints (v3List fs))).map fClass))
   | "c17.aabb.contains" => do
       let b ← bbOf (fs.take 6); let p ← v3Of (fs.drop 6); pure (boolStr (b.Contains p))
   | "c17.aabb.intersects" => do
